@@ -12,6 +12,8 @@ R4 BOUND   interval bound of the general evaluator (coarse, additive loop rule) 
 R5 DEFUSE  scratch members are written for both colours before anything reads them in the same
            score() call; statistics members are read only by print_stats.
 """
+import re
+
 from facts import AnalysisBroken
 from prog import walk, kids, short
 from rules.atoms import cn, conj, facts_atoms, norm_atom, _unbool
@@ -198,7 +200,20 @@ def r2(ctx, p):
         slot_e = cn(probe, kids(slot[0])[0]) if slot and kids(slot[0]) else ''
         key_eq = any(a[0] == 'eq' and set(a[1:]) == {'entry.key', 'key'} for a in atoms)
         markers = [a for a in atoms if a[0] in ('ne', 'eq', 'ge', 'le') and a[1].startswith('entry.') and a[1] != 'entry.key' and isinstance(a[2], int)]
-        ctx.ob('C14.R2.probe-key', tag, key_eq and 'key&' in slot_e.replace('(', '').replace(' ', ''),
+        # the slot is a function of the key alone: key & (Size-1) or key % Size (Size is a power of two), possibly through a helper
+        from rules.norm import Norm as _Ns
+        def slot_of(f_, node):
+            t_ = _Ns(f_).s(node).replace(' ', '')
+            m_ = re.search(r'data_\[(.*)\]', t_)
+            return m_.group(1) if m_ else t_
+        size_ = int(cta.rsplit(',', 1)[1]) if cta.rsplit(',', 1)[1].strip().isdigit() else None
+
+        def slot_ok(t_):
+            m1 = re.fullmatch(r'\((\d+)&key\)', t_) or re.fullmatch(r'\(key&(\d+)\)', t_)
+            m2 = re.fullmatch(r'\(key%(\d+)\)', t_)
+            return bool(size_ and ((m1 and int(m1.group(1)) + 1 == size_) or (m2 and int(m2.group(1)) == size_)) and size_ & (size_ - 1) == 0)
+        p_slot = slot_of(probe, kids(slot[0])[0]) if slot and kids(slot[0]) else ''
+        ctx.ob('C14.R2.probe-key', tag, key_eq and slot_ok(p_slot),
                'a hit requires the stored key to equal the probed key in the slot selected by the key', site=probe.loc())
         # clear: every slot receives a value that the marker test rejects
         st = [x for x in clear.all_nodes() if x['k'] in ('BinaryOperator', 'CXXOperatorCallExpr') and x.get('op') == '=']
@@ -294,7 +309,7 @@ def r2(ctx, p):
                    '(wrap-around after 2^32 epochs not considered)', site=insert.loc())
         # insert stores key and value of its arguments in the probed slot
         sl = [x for x in insert.all_nodes() if x['k'] in ('BinaryOperator', 'CXXOperatorCallExpr') and x.get('op') == '=']
-        oks = len(sl) == 1 and 'data_[(key&' in cn(insert, kids(sl[0])[0] if sl[0]['k'] == 'BinaryOperator' else kids(sl[0])[1]).replace(' ', '')
+        oks = len(sl) == 1 and slot_of(insert, kids(sl[0])[0] if sl[0]['k'] == 'BinaryOperator' else kids(sl[0])[1]) == p_slot and slot_ok(p_slot)
         ctx.ob('C14.R2.insert-slot', tag, oks, 'insert writes the slot that probe reads for the same key', site=insert.loc())
 
 
